@@ -956,6 +956,16 @@ fn case_text(sh: &mut Shard, idx: u64, r: &mut Rng) {
             }
         }
     }
+    // ---- RFC 3339 strings with UTC offsets denote the instant computed by the harness
+    for _ in 0..4 {
+        let (ms, off_min, text) = util::gen_offset_timestamp(r);
+        sh.evaluations += 1;
+        sh.hit(if off_min == 0 { "text.timestamp_offset.zero" } else if off_min > 0 { "text.timestamp_offset.positive" } else { "text.timestamp_offset.negative" });
+        match vmon_core::catch(|| Timestamp::from_str(&text)) {
+            Ok(Ok(t)) if t.timestamp_millis() == ms => {}
+            other => viol!("text-timestamp-offset", format!("timestamp-offset:{}", text), format!("Timestamp::from_str({:?}) = {:?}, the instant is {} ms after the epoch (offset {} minutes)", text, other.map(|x| x.map(|t| t.timestamp_millis()).map_err(|e| es(&e))), ms, off_min), json!({"text": text, "millis": ms, "offset_minutes": off_min})),
+        }
+    }
     // ---- receive names: construct(contract, entrypoint) and the split at the FIRST dot
     for _ in 0..4 {
         let cn = match r.below(8) {
